@@ -325,6 +325,13 @@ def corpus():
         {"own": [0, 12], "cross": [], "cmds": setup2 + [("sign", [0], None, False), ("sign", [0], None, True),
                                                          ("sign", [12], None, False), ("set-version", 2 ** 32),
                                                          ("sign", [12, 0], None, False)]},
+        # the same key signs twice (RSA-PSS and ECDSA signatures differ every time): one signer, threshold 2
+        {"own": [0, 12], "cross": [], "cmds": setup2 + [("sign", [12], None, True), ("sign", [12], None, False),
+                                                         ("sign", [12], None, True), ("sign", [0], None, False)]},
+        {"own": [10, 12], "cross": [], "cmds": [("init", None), ("add-key", [10, 12], [0, 1, 2, 3]), ("set-threshold", 0, 2),
+                                                 ("set-threshold", 1, 1), ("set-threshold", 2, 1), ("set-threshold", 3, 1),
+                                                 ("sign", [10], None, True), ("sign", [10], None, False),
+                                                 ("sign", [10, 10], None, False)]},
         # thresholds not reachable (fresh init), unknown keys, version bounds
         {"own": [10], "cross": [], "cmds": [("init", None), ("add-key", [10], [0]), ("sign", [10], None, False),
                                             ("sign", [10], None, True), ("set-version", U64), ("bump-version",),
